@@ -238,6 +238,10 @@ func dateTimeSamples(t *rapid.T, label string) []fmtSample {
 		{date + "T23:59:60" + frac + off, true},
 		{date[:8] + rapid.SampledFrom([]string{"31", "30"}).Draw(t, label+"eom") + "T" + rapid.SampledFrom([]string{"23:59:60Z", "15:59:60-08:00", "23:59:61Z"}).Draw(t, label+"leap"), false},
 		{date + "T" + tm + "." + off, false},
+		// 29 February: of years divisible by 400 (leap), by 100 only (not), by 4 (leap)
+		{rapid.SampledFrom([]string{"2000", "2400", "1600", "2024", "0004"}).Draw(t, label+"leapY") + "-02-29T" + tm + off, true},
+		{rapid.SampledFrom([]string{"1900", "2100", "2023", "1800"}).Draw(t, label+"noLeapY") + "-02-29T" + tm + off, false},
+		{strings.ToLower(ok), true},
 		{date[:5] + "+" + date[6:] + "T" + tm + off, false}, {"+" + date[1:] + "T" + tm + off, false}, {date + "T+" + tm[1:] + off, false}, {date + "T" + tm[:3] + "-" + tm[4:] + off, false},
 		{date + "T" + tm + "." + digits(t, 10, 14, false, label+"longfr") + off, true},
 	}
